@@ -599,6 +599,7 @@ class Authorization(Endpoint):
         if resource_indicators_config is not None:
             if "policy" not in resource_indicators_config:
                 policy = {"policy": {"function": validate_resource_indicators_policy}}
+                resource_indicators_config = dict(resource_indicators_config)
                 resource_indicators_config.update(policy)
             request = self._enforce_resource_indicators_policy(request, resource_indicators_config)
 
@@ -609,7 +610,7 @@ class Authorization(Endpoint):
 
         policy = config["policy"]
         function = policy["function"]
-        kwargs = policy.get("kwargs", {})
+        kwargs = dict(policy.get("kwargs", {}))
 
         if kwargs.get("resource_servers_per_client", None) is None:
             kwargs["resource_servers_per_client"] = {request["client_id"]: request["client_id"]}
